@@ -104,6 +104,30 @@ def steps_until_inside_callee(code, limit=200):
     return None
 
 
+def hidden_name_problem(name, prog, include, dump, routines):
+    """the hidden counter of a LOOP must not be a variable a user can write: its register name must not be identifier-shaped (the scanner's ID rule,
+    C14).  If it is, derive a program that assigns that name inside the loop body; the concrete public-API replay then decides."""
+    import copy
+    for ri, sm in enumerate(dump['stack_maps']):
+        user = set(v for v in routines[ri]['vars'] if not v.startswith('%'))
+        for reg, nm in sm['map'].items():
+            if nm in user or not re.fullmatch(r'[A-Za-z_][A-Za-z0-9_]*', nm): continue
+            p2 = copy.deepcopy(prog); k = nlits(prog); done = [False]
+            def patch(body):
+                for i, st in enumerate(body):
+                    if done[0]: return
+                    if st[0] in ('loop',):
+                        body[i] = (st[0], st[1], [('set', nm, k)] + list(st[2])); done[0] = True; return
+                    if st[0] in ('while',): patch(st[2])
+                    if st[0] == 'label' and st[2][0] == 'loop':
+                        body[i] = ('label', st[1], ('loop', st[2][1], [('set', nm, k)] + list(st[2][2]))); done[0] = True; return
+            tgt = p2['main'] if ri == len(dump['stack_maps']) - 1 else p2['defs'][ri]['body']
+            patch(tgt)
+            if done[0]:
+                return {'shape': name + '_counter_alias', 'prog': p2, 'include': include, 'result': 'the hidden loop counter is named %r, which a user can write as a variable' % nm, 'source': {}}
+    return None
+
+
 def nlits(prog):
     m = [-1]
     def walk(x):
@@ -327,6 +351,9 @@ def build_jobs(prop, tier, seed, wd, entries=('h_ctv',), tags=None, only=None):
             problems.append({'shape': name, 'source': files, 'result': 'reference/bytecode mismatch: %s' % ex, 'prog': prog, 'include': include})
             if 'h_wf' not in entries: continue
             data, info = wf_only_data(name, dump); routines = []; wf_only = True
+        if not wf_only:
+            hid = hidden_name_problem(name, prog, include, dump, routines)
+            if hid: problems.append(hid)
         dpath = os.path.join(wd, 'ctv_%s.hpp' % name)
         open(dpath, 'w').write(data)
         defines = ['CTV_DATA="%s"' % dpath, 'MINISTL_VEC_CAP=%d' % (info['routines'] + 1), 'MINISTL_STR_CAP=12', 'MINISTL_MAP_CAP=%d' % max(3, len(dump['line_info']) + 1),
